@@ -238,6 +238,9 @@ func (r *Run) RunWorker(bin, mode string, spec []byte, timeout time.Duration, en
 	go func() { done <- cmd.Wait() }()
 	select {
 	case err = <-done:
+		if ee, ok := err.(*exec.ExitError); ok && ee.ExitCode() == 66 {
+			err = nil // the race runtime's exit code when reports were written; they are judged from the log
+		}
 	case <-time.After(timeout):
 		syscall.Kill(-cmd.Process.Pid, syscall.SIGQUIT)
 		select {
